@@ -5,6 +5,8 @@
    `tcount' is the number of entries in the broker's real subscription trie after the step. *)
 EXTENDS Session, TraceLib
 
+CONSTANT NB           \* number of brokers (Home <- HomeMap)
+HomeMap == StdHome(NB)
 VARIABLE l
 vars == <<allvars, l>>
 
@@ -29,9 +31,16 @@ AsyncEq(la, ea) == /\ Len(la) = Cardinality(ea)
 
 (* what every client received during the step = what the specification prescribes, and the real index holds
    exactly the model's subscriptions *)
+(* several brokers (C05 at the level of sessions): at gossip quiescence the remote entries of broker b's real trie are
+   exactly the (broker, filter) pairs for which some connection of ANOTHER broker holds the filter - one route however
+   many connections hold it, gone with the last of them; presence-change subscriptions are routed like any other *)
+RoutesOK(ev) ==
+    Has(ev, "routes") =>
+        \A b \in Brokers : ToSet(ev.routes[b]) = { <<Home[e[2]], e[1]>> : e \in { x \in trie' : Home[x[2]] # b } }
 OutOK(ev) ==
     /\ \A c \in Clients : SyncEq(ev.out[c].s, out'[c].s) /\ AsyncEq(ev.out[c].a, out'[c].a)
     /\ ev.tcount = Cardinality(trie')
+    /\ RoutesOK(ev)
 
 IsEvent(e) == l <= Len(Log) /\ Log[l].e = e /\ l' = l + 1
 Ev == Log[l]
@@ -39,7 +48,7 @@ ReqOf(ev) == [k |-> ev.k, w |-> ev.w, syn |-> ev.syn, me0 |-> ev.me0, ttl |-> ev
 
 TrReset   == IsEvent("reset") /\ conn' = [c \in Clients |-> "new"] /\ user' = [c \in Clients |-> ""]
                 /\ will' = [c \in Clients |-> NoWill] /\ held' = [c \in Clients |-> {}] /\ trie' = {}
-                /\ links' = [c \in Clients |-> {}] /\ store' = <<>> /\ out' = Quiet
+                /\ links' = [c \in Clients |-> {}] /\ store' = [b \in Brokers |-> <<>>] /\ out' = Quiet
 TrConnect == IsEvent("connect")  /\ Connect(Ev.c, Ev.u, Ev.will) /\ OutOK(Ev)
 TrSub     == IsEvent("sub")      /\ Subscribe(Ev.c, Ev.k, Ev.w, Ev.syn, Ev.last, Ev.win) /\ OutOK(Ev)
 TrUnsub   == IsEvent("unsub")    /\ Unsubscribe(Ev.c, Ev.k, Ev.w, Ev.syn) /\ OutOK(Ev)
